@@ -146,6 +146,13 @@ def Step.isDrop : Step → Bool
   | .at _ .drop => true
   | _ => false
 
+/-- A step that can lose an event: the tee dropping, or a coalescer goroutine returning at
+shutdown (what is sent to it afterwards is never read). -/
+def Step.isLoss : Step → Bool
+  | .at _ .drop => true
+  | .at _ .shutdown => true
+  | _ => false
+
 /-- Nothing in flight: every emitted event was sent, every queue is empty, no coalescer holds an event. -/
 def stageIdle : Stage × List PEv → Bool
   | (.memberCo s, q) => q.isEmpty && s.c.latest.isEmpty
